@@ -107,6 +107,24 @@ def store_histories(tier, rng):
         hists.append({"init": rng.choice(["empty", "json", "legacy"]),
                       "ops": [rng.choice(ops)
                               for _ in range(rng.choice([3, 4]))]})
+    # two LIVE Profile objects on the same file, used alternately
+    for init in ("empty", "json", "legacy"):
+        for k in keys:
+            v1, v2 = sorted(STORE_VALUES[k])[:2]
+            for other in (k, rng.choice(keys)):
+                hists.append({"init": init, "live": True, "ops": [
+                    ("set", k, v1, "o2"), ("get", other, "o1"),
+                    ("get", k, "o2"), ("get", k, "new")]})
+                hists.append({"init": init, "live": True, "ops": [
+                    ("set", k, v1, "o1"), ("set", k, v2, "o2"),
+                    ("set", other, sorted(STORE_VALUES[other])[0], "o1"),
+                    ("get", k, "new")]})
+    for _ in range(n // 2):
+        hists.append({"init": rng.choice(["empty", "json", "legacy"]),
+                      "live": True,
+                      "ops": [rng.choice(ops) + (rng.choice(["o1", "o2",
+                                                             "new"]),)
+                              for _ in range(rng.choice([3, 4, 5]))]})
     # fit parameters: defaults overridden by exactly the stored entries
     for init in ("empty", "json", "legacy"):
         for combo in itertools.product([None, "fe_a", "fe_b"],
@@ -158,14 +176,26 @@ def run_store(job):
               "initmap": {k: (vals(k, init_map[k]) if k in init_map
                               and h["init"] != "empty" else "absent")
                           for k in STORE_VALUES}}
+        live = {}
+        if h.get("live"):
+            with warnings.catch_warnings():
+                warnings.simplefilter("ignore")
+                live = {"o1": profile.Profile(path=path),
+                        "o2": profile.Profile(path=path)}
         for op in h["ops"]:
+            who = "new"
+            if op and op[-1] in ("o1", "o2", "new"):
+                who = op[-1]
+                op = op[:-1]
             ev = {"op": op[0], "key": op[1] if len(op) > 1 else "none",
                   "val": op[2] if len(op) > 2 else "none", "out": "ok",
                   "ret": "none", "exc": "", "fp_ok": True}
             try:
                 with warnings.catch_warnings():
                     warnings.simplefilter("ignore")
-                    pf = profile.Profile(path=path)     # a NEW object
+                    # a NEW object, or one of two long-lived ones
+                    pf = live[who] if who in live \
+                        else profile.Profile(path=path)
                     if op[0] == "set":
                         pf[op[1]] = STORE_VALUES[op[1]][op[2]]
                     elif op[0] == "get":
@@ -312,7 +342,8 @@ def dialogue_scripts(tier, rng):
         "value:E": ["2500", "1e4"], "vary:E": ["true", "false", "maybe"],
         "value:contact_point": ["1e-7"], "vary:contact_point": ["false"],
         "value:baseline": ["0.5e-9"], "vary:R": ["true"],
-        "rtype": ["absolute", "relative cp", "relative", "nonsense"],
+        "rtype": ["absolute", "relative cp", "relative", "nonsense",
+                  "Relative CP", "absolute ", " relative cp"],
         "left": ["-2", "0.5"], "right": ["1.5", "0"],
         "weight": ["0.25", "0"],
         "ts": ["zef18", "no_such_set"],
